@@ -312,6 +312,60 @@ pub fn run(p: &[String]) -> Vec<String> {
                 None => vec![hex("<dropped>")],
             }
         }
+        // ---- C05
+        "font_roundtrip" => {
+            // name size bold name size bold : two cells with these fonts, saved and reloaded
+            let mut book = umya_spreadsheet::new_file();
+            let ws = book.get_sheet_by_name_mut("Sheet1").unwrap();
+            for (i, k) in [(1u32, 1usize), (2u32, 4usize)] {
+                let c = ws.get_cell_mut((1, i));
+                c.set_value_string("x");
+                let f = c.get_style_mut().get_font_mut();
+                f.set_name(unhex(&p[k]));
+                f.set_size(u(&p[k + 1]) as f64);
+                f.set_bold(b(&p[k + 2]));
+            }
+            let mut buf: Vec<u8> = Vec::new();
+            umya_spreadsheet::writer::xlsx::write_writer(&book, &mut buf).unwrap();
+            let back = umya_spreadsheet::reader::xlsx::read_reader(std::io::Cursor::new(buf), true).unwrap();
+            let ws = back.get_sheet_by_name("Sheet1").unwrap();
+            (1u32..=2).map(|i| {
+                let st = ws.get_style((1, i));
+                match st.get_font() {
+                    Some(f) => hex(&format!("{}/{}/{}", f.get_name(), f.get_size(), f.get_bold())),
+                    None => hex("no font"),
+                }
+            }).collect()
+        }
+        "fill_roundtrip" => {
+            // "background=..;foreground=.." twice ('-' = absent)
+            let mut book = umya_spreadsheet::new_file();
+            let ws = book.get_sheet_by_name_mut("Sheet1").unwrap();
+            for (i, k) in [(1u32, 1usize), (2u32, 2usize)] {
+                let c = ws.get_cell_mut((1, i));
+                c.set_value_string("x");
+                let pf = c.get_style_mut().get_fill_mut().get_pattern_fill_mut();
+                for item in unhex(&p[k]).split(';') {
+                    let (w, v) = item.split_once('=').unwrap();
+                    if v == "-" { continue; }
+                    let mut col = umya_spreadsheet::Color::default();
+                    col.set_argb(v);
+                    if w == "foreground" { pf.set_foreground_color(col); } else { pf.set_background_color(col); }
+                }
+            }
+            let mut buf: Vec<u8> = Vec::new();
+            umya_spreadsheet::writer::xlsx::write_writer(&book, &mut buf).unwrap();
+            let back = umya_spreadsheet::reader::xlsx::read_reader(std::io::Cursor::new(buf), true).unwrap();
+            let ws = back.get_sheet_by_name("Sheet1").unwrap();
+            (1u32..=2).map(|i| {
+                let st = ws.get_style((1, i));
+                let show = |c: Option<&umya_spreadsheet::Color>| c.map(|c| c.get_argb().to_string()).unwrap_or("-".to_string());
+                match st.get_fill().and_then(|f| f.get_pattern_fill()) {
+                    Some(pf) => hex(&format!("background={};foreground={}", show(pf.get_background_color()), show(pf.get_foreground_color()))),
+                    None => hex("background=-;foreground=-"),
+                }
+            }).collect()
+        }
         // ---- C10
         "store_step" => {
             // op x y blank_has_format c0 r0 c1 r1 c2 r2 c3 r3 : same scenario through the public API, checked against a brute-force reference
